@@ -30,10 +30,9 @@ ASSUMPTIONS = [
     'dispatch order (the order in which handler invocations are handed to the pool) is what the theorems and the trace '
     'conformance are about; with more than one handler thread handler bodies may overlap or start out of order (the '
     'pool\'s contract) — start-order inversions are counted in the evidence, not judged',
-    'clients write whole frames per TCP write and wait for the 101 response before the first frame, so that neither the '
-    'non-blocking 1-byte header read (F21) nor the request parser\'s read-ahead (F01) is triggered; pings and closes carry '
-    'empty payloads so that the payload-only Pong/Close replies (F20) put no stray bytes on the wire (both repaired '
-    'elsewhere; the client parser accepts proper Pong/Close frames as well)',
+    'clients write whole frames per TCP write and wait for the 101 response before the first frame, so that the request '
+    'parser\'s read-ahead (F01, a C01 known finding) is not triggered; pings and closes carry empty payloads (chosen when '
+    'F20 / F21 were still open; both are fixed now and C11 covers non-empty control payloads and split headers)',
     'a client that starts a fragmented message finishes it (the remaining frames are read with blocking reads: see '
     'C12_blocked_receive_refuted and the corpus scenario stall-*)',
     'a client that resets or half-closes its connection without a Close frame is only noticed through the heartbeat (a '
